@@ -103,6 +103,13 @@ theorem writeLhsC_comm {l1 l2 : CExpr} (hi : targetIndep l1 [l2] = true) {σ σa
         subst h2; subst h12
         exact ⟨rfl, rfl, rfl, rfl, rfl, rfl, rfl, fun _ => rfl⟩
       | _ => simp [writeLhsC, writeRegC] at h2
+    | imm l2 s2 =>
+      cases v2 with
+      | bv w x =>
+        simp only [writeLhsC, Except.ok.injEq] at h2 h12
+        subst h2; subst h12
+        exact ⟨rfl, rfl, rfl, rfl, rfl, rfl, rfl, fun _ => rfl⟩
+      | _ => simp [writeLhsC] at h2
     | _ => simp [writeLhsC] at h2
   | reg n1 k1 t1 =>
     cases v1 with
@@ -127,6 +134,13 @@ theorem writeLhsC_comm {l1 l2 : CExpr} (hi : targetIndep l1 [l2] = true) {σ σa
           · funext q
             by_cases hq1 : q = opvarOf n1 k1 <;> by_cases hq2 : q = opvarOf n2 k2 <;> simp_all
         | _ => simp [writeLhsC, writeRegC] at h2
+      | imm l2 s2 =>
+        cases v2 with
+        | bv w x =>
+          simp only [writeLhsC, Except.ok.injEq] at h2 h12
+          subst h2; subst h12
+          exact ⟨rfl, rfl, rfl, rfl, rfl, rfl, rfl, fun _ => rfl⟩
+        | _ => simp [writeLhsC] at h2
       | _ => simp [writeLhsC] at h2
     | _ => simp [writeLhsC, writeRegC] at h1
   | _ => simp [targetIndep] at hi
